@@ -10,8 +10,19 @@ class DispatchError(Exception):
     pass
 
 
-def select(fn, key_param, key):
+def module_tables(tree):
+    """{name: value node} of the module-level `NAME = <literal dict / tuple / list>` assignments (lookup tables)"""
+    out = {}
+    for st in tree.body:
+        if isinstance(st, ast.Assign) and len(st.targets) == 1 and isinstance(st.targets[0], ast.Name) and isinstance(st.value, (ast.Dict, ast.Tuple, ast.List, ast.Constant)):
+            out[st.targets[0].id] = st.value
+    return out
+
+
+def select(fn, key_param, key, tables=None, want="callee"):
+    """want="callee": name of the function whose call is returned; want="value": the (literal) value returned."""
     env = {key_param: key}
+    tables = tables or {}
 
     def val(e):
         if isinstance(e, ast.Constant):
@@ -19,6 +30,8 @@ def select(fn, key_param, key):
         if isinstance(e, ast.Name):
             if e.id in env:
                 return env[e.id]
+            if e.id in tables:
+                return val(tables[e.id])
             return ("fn", e.id)
         if isinstance(e, (ast.Tuple, ast.List)):
             return [val(x) for x in e.elts]
@@ -96,6 +109,9 @@ def select(fn, key_param, key):
                         raise DispatchError("loop target %s" % ast.unparse(s.target))
                     run(s.body)
             elif isinstance(s, ast.Return):
+                if want == "value" and s.value is not None:
+                    result[0] = val(s.value)
+                    raise Done()
                 if isinstance(s.value, ast.Call):
                     f = val(s.value.func)
                     if isinstance(f, tuple) and f[0] == "fn":
